@@ -13,8 +13,8 @@ enum ArtType { A_PUBKEY33, A_PUBKEY65, A_XONLY, A_ECDSA64, A_ECDSA_DER, A_RECSIG
                A_ELLSWIFT, A_HALFAGG, A_COMMIT, A_GENERATOR, A_RANGEPROOF, A_SURJECTION, A_WHITELIST, A_BPPP_GENS, A_NTYPES };
 const char *const AN[] = {"pubkey33", "pubkey65", "xonly", "ecdsa64", "ecdsa_der", "recsig", "schnorr", "pubnonce", "aggnonce", "psig", "adaptor", "opening",
                           "ellswift", "halfagg", "commit", "generator", "rangeproof", "surjection", "whitelist", "bppp_gens"};
-enum DiskFault { D_NONE, D_BITROT, D_TORN, D_SHORT, D_EXTEND, D_STALE, D_MISDIRECT, D_ZERO, D_FF, D_NF };
-const char *const DN[] = {"intact", "bitrot", "torn", "short", "extend", "stale", "misdirected", "zero_block", "ff_block"};
+enum DiskFault { D_NONE, D_BITROT, D_TORN, D_SHORT, D_EXTEND, D_STALE, D_MISDIRECT, D_ZERO, D_FF, D_HDRBIT, D_NF };
+const char *const DN[] = {"intact", "bitrot", "torn", "short", "extend", "stale", "misdirected", "zero_block", "ff_block", "header_bit"};
 
 // exact-size heap copy without padding: an over-read by the library hits an ASan red zone
 struct Exact {
@@ -127,6 +127,7 @@ void consume(Use &u, const Bytes &rec) {
         case A_SCHNORR: {
             if (in.n != 64) return;
             int v = U01(secp256k1_schnorrsig_verify(ctx, in.p, F.msg, 32, &F.xpk[0])); expect_intact(u, v, "secp256k1_schnorrsig_verify");
+            { const unsigned char *volatile nomsg = NULL; U01(secp256k1_schnorrsig_verify(ctx, in.p, nomsg, 0, &F.xpk[0])); }   // the empty message may be passed as (NULL, 0)
             Buf agg(64); size_t al = 64; U01(secp256k1_schnorrsig_aggregate(ctx, agg.p(), &al, &F.xpk[0], F.msg, in.p, 1));
             break;
         }
@@ -324,6 +325,7 @@ static void store_execute(const Plan &p, const ExecOpts &, Result &r) {
             case D_MISDIRECT: rec = artifact(fa, (int)(((o.arg(4) % A_NTYPES) + A_NTYPES) % A_NTYPES)); break;
             case D_ZERO: std::fill(rec.begin(), rec.end(), 0); break;
             case D_FF: std::fill(rec.begin(), rec.end(), 0xff); break;
+            case D_HDRBIT: if (n) { size_t span = std::min<size_t>(n, 2 + (size_t)(a2 % 3)); size_t bit = (size_t)(a1 % (int64_t)(8 * span)); rec[bit / 8] ^= (uint8_t)(1u << (bit % 8)); } break;   // single-bit rot in the header bytes, where the structure is
             default: break;
         }
         bool intact = rec == good;
